@@ -13,7 +13,7 @@ pub const TEXT_FRAGS: &[&str] = &[
     "# HELP a b", "1", "+Inf", "NaN", "\\x", "\u{feff}", "a b", "\\", "\u{0b}", "\u{0c}",
 ];
 
-/// Long fragments (1 KiB - 300 KB after escaping, in ASCII, multi-byte and all-escapes flavours): internal
+/// Long fragments (1 KiB - 128 KiB after escaping, in ASCII, multi-byte and all-escapes flavours): internal
 /// buffers and fast paths tend to have thresholds.
 pub fn long_frags() -> &'static [&'static str] {
     static POOL: std::sync::OnceLock<Vec<&'static str>> = std::sync::OnceLock::new();
@@ -37,7 +37,7 @@ pub fn long_frags() -> &'static [&'static str] {
             mk("t".repeat(65535)),
             mk("t".repeat(65537)),
             mk("é".repeat(40000)),
-            mk("s".repeat(300_001)),
+            mk("s".repeat(131_073)),
         ]
     })
 }
